@@ -9,7 +9,7 @@ from vlib.gen import make_r_fmt, make_r_sub, make_r_dyn, r_fold, r_dynw
 QB = "src/backend/query_builder.rs"
 P = ["C08"]
 OPAQUE = ["OnConflictTarget", "ColumnRef", "SelectDistinct", "TableRef", "JoinType", "JoinOn", "ConditionHolder", "SimpleExpr", "DynIden",
-          "WindowStatement", "Value", "IndexHint", "TableSample"]
+          "Value", "IndexHint", "TableSample"]
 r_fmt = make_r_fmt(wmap=lambda w: w)
 
 
@@ -147,6 +147,7 @@ pub proof fn lemma_%(n)s_empty(xs: Seq<%(t)s>)
 LISTS = [("l_selexprs", "SelectExpr", "Ev::SelExpr(%s)", "sep"), ("l_trefs", "TableRef", "Ev::TRef(%s)", "sep"), ("l_exprs", "SimpleExpr", "Ev::Expr(%s)", "sep"),
          ("l_orders", "OrderExpr", "Ev::Order(%s)", "sep"), ("l_joins", "JoinExpr", "Ev::Join(%s)", "pre"), ("l_unions", "(UnionType, SelectStatement)", "Ev::Union(%s.0, %s.1)", "each"),
          ("l_updvalues", "(DynIden, Box<SimpleExpr>)", "", "upd"), ("l_idens", "DynIden", "Ev::Iden(%s)", "sep"), ("l_colrefs", "ColumnRef", "Ev::ColRef(%s)", "sep"),
+         ("l_ctes2", "CommonTableExpression", "Ev::Cte(%s)", "sep"),
          ("l_updstrats", "OnConflictUpdate", "upd_item(%s)", "multi"), ("l_pkassign", "DynIden", "seq![Ev::Iden(%s), lit(\" = \"), Ev::Iden(%s)]", "multi"), ("l_rows", "Vec<SimpleExpr>", "", "rows")]
 
 
@@ -200,6 +201,11 @@ def build(u):
     u.type_item("src/query/select.rs", "struct", "LockClause", props=P, rules=[make_r_sub("R-vis", r"pub\(crate\) ", "pub ", min_count=0)])
     u.type_item("src/query/select.rs", "struct", "JoinExpr", props=P)
     u.type_item("src/query/select.rs", "enum", "WindowSelectType", props=P)
+    # window specifications: real types
+    u.type_item("src/query/window.rs", "enum", "Frame", props=P)
+    u.type_item("src/query/window.rs", "enum", "FrameType", props=P)
+    u.type_item("src/query/window.rs", "struct", "FrameClause", props=P, rules=[make_r_sub("R-vis", r"pub\(crate\) ", "pub ", min_count=0)])
+    u.type_item("src/query/window.rs", "struct", "WindowStatement", props=P, rules=[make_r_sub("R-vis", r"pub\(crate\) ", "pub ", min_count=0)])
     # upsert / RETURNING: real types (their renderers are under contract)
     u.type_item("src/query/on_conflict.rs", "enum", "OnConflictUpdate", props=P)
     u.type_item("src/query/on_conflict.rs", "enum", "OnConflictAction", props=P)
@@ -210,7 +216,10 @@ def build(u):
     u.type_item("src/query/with.rs", "enum", "SearchOrder", props=P)
     u.type_item("src/query/with.rs", "struct", "Search", props=P, rules=[make_r_sub("R-vis", r"pub\(crate\) ", "pub ", min_count=0)])
     u.type_item("src/query/with.rs", "struct", "Cycle", props=P, rules=[make_r_sub("R-vis", r"pub\(crate\) ", "pub ", min_count=0)])
-    u.type_item("src/query/with.rs", "struct", "WithClause", props=P, keep_fields=["recursive", "search", "cycle"])
+    u.emit("#[verifier::external_body]\npub struct SubQueryStatement { _opaque: u8 }\n", kind="spec", key="R-opaque:SubQueryStatement", props=P)
+    u.type_item("src/query/with.rs", "struct", "CommonTableExpression", props=P, rules=[make_r_sub("R-vis", r"pub\(crate\) ", "pub ", min_count=0)])
+    u.type_item("src/query/with.rs", "struct", "WithClause", props=P, rules=[make_r_sub("R-vis", r"pub\(crate\) ", "pub ", min_count=0)])
+    u.type_item("src/query/with.rs", "struct", "WithQuery", props=P, rules=[make_r_sub("R-vis", r"pub\(crate\) ", "pub ", min_count=0)])
     # ORDER BY items are real types here: the per-dialect NULLS form is decided on their fields
     u.type_item("src/value.rs", "struct", "Values", props=P)
     u.type_item("src/types.rs", "enum", "NullOrdering", props=P)
@@ -464,6 +473,51 @@ pub open spec fn select_expr_events(x: SelectExpr) -> Seq<Ev> {
     u.fn("src/backend/sqlite/query.rs", "impl QueryBuilder for SqliteQueryBuilder", "prepare_select_lock", props=P, key="SqliteQueryBuilder::prepare_select_lock", vpath="SqliteQueryBuilderJ::prepare_select_lock",
          rules=[r_dynw, make_r_sub("R-slice", r"_sql: &mut W", "sql: &mut W")], spec="ensures\n    // SQLite has no row locks: nothing is written\n    final(sql).tr() == old(sql).tr(),")
     u.emit("}\n")
+    # ---- window specifications -------------------------------------------------------------------------------------------------------
+    # grammar (all three dialects): [PARTITION BY expr, ..] [ORDER BY item, ..] [{ROWS | RANGE} {frame_start | BETWEEN frame_start AND frame_end}]
+    # frame_start / frame_end: UNBOUNDED PRECEDING | <n> PRECEDING | CURRENT ROW | <n> FOLLOWING | UNBOUNDED FOLLOWING  - the offset and the
+    # keyword are two tokens
+    u.spec('''
+pub open spec fn frame_events(f: Frame) -> Seq<Ev> {
+    match f {
+        Frame::UnboundedPreceding => seq![lit("UNBOUNDED PRECEDING")], Frame::Preceding(v) => seq![Ev::U32Value(v), lit(" PRECEDING")],
+        Frame::CurrentRow => seq![lit("CURRENT ROW")], Frame::Following(v) => seq![Ev::U32Value(v), lit(" FOLLOWING")],
+        Frame::UnboundedFollowing => seq![lit("UNBOUNDED FOLLOWING")],
+    }
+}
+pub open spec fn win_partition(w: WindowStatement) -> Seq<Ev> { if w.partition_by@.len() > 0 { seq![lit("PARTITION BY ")] + l_exprs(w.partition_by@) } else { Seq::<Ev>::empty() } }
+pub open spec fn win_order(w: WindowStatement) -> Seq<Ev> { if w.order_by@.len() > 0 { seq![lit(" ORDER BY ")] + l_orders(w.order_by@) } else { Seq::<Ev>::empty() } }
+pub open spec fn win_frame(w: WindowStatement) -> Seq<Ev> {
+    match w.frame {
+        Some(fc) => seq![lit(match fc.r#type { FrameType::Range => " RANGE ", FrameType::Rows => " ROWS " })]
+            + (match fc.end { Some(e) => seq![lit("BETWEEN "), Ev::FrameEv(fc.start), lit(" AND "), Ev::FrameEv(e)], None => seq![Ev::FrameEv(fc.start)] }),
+        None => Seq::<Ev>::empty() }
+}
+pub open spec fn window_events(w: WindowStatement) -> Seq<Ev> { win_partition(w) + win_order(w) + win_frame(w) }
+''', "render::window-spec", props=P)
+    u.emit("pub struct DfltWin;\nimpl DfltWin {\n")
+    u.spec(abstract("prepare_simple_expr", "x: &SimpleExpr", "Ev::Expr(*x)") + abstract("prepare_order_expr", "x: &OrderExpr", "Ev::Order(*x)")
+           + abstract("prepare_frame_", "x: &Frame", "Ev::FrameEv(*x)")
+           + "    // prepare_value(&v.into()) of a u32 offset: one bound value (unit writer: prepare_value is one push_param)\n"
+           + abstract("prepare_u32_value", "v: u32", "Ev::U32Value(v)"), "render::abstract-sub-renderers(window)", props=P)
+    u.fn(QB, "trait QueryBuilder", "prepare_frame", props=P, key="QueryBuilder::prepare_frame", vpath="DfltWin::prepare_frame",
+         rules=[r_dynw, r_fmt, make_r_sub("R-into", r"self\.prepare_value\(&v\.into\(\), sql\)", "self.prepare_u32_value(v, sql)", min_count=2)],
+         spec="ensures\n    // the bound's keyword(s); a numeric offset is a value followed by the keyword as a separate token\n    final(sql).tr() == old(sql).tr() + frame_events(*frame),",
+         proofs={"body-start": "let ghost t0 = sql.tr();", "body-end": "proof { assert(sql.tr() =~= t0 + frame_events(*frame)); }"})
+    u.fn(QB, "trait QueryBuilder", "prepare_window_statement", props=P, key="QueryBuilder::prepare_window_statement", vpath="DfltWin::prepare_window_statement", prefix="#[verifier::rlimit(40)]\n    ",
+         rules=[r_dynw, r_fold, r_fmt, make_r_sub("R-path", r"self\.prepare_frame\(", "self.prepare_frame_(", min_count=3)],
+         spec="ensures\n    // PARTITION BY list, ORDER BY list, frame clause - each once, in this order, lists in call order\n    final(sql).tr() == old(sql).tr() + window_events(*window),",
+         loops=["invariant it1.index@ <= window.partition_by@.len(), first == (it1.index@ == 0), sql.tr() == tp + l_exprs(window.partition_by@.subrange(0, it1.index@ as int)),",
+                "invariant it2.index@ <= window.order_by@.len(), first == (it2.index@ == 0), sql.tr() == to + l_orders(window.order_by@.subrange(0, it2.index@ as int)),"],
+         proofs={"body-start": "let ghost t0 = sql.tr();",
+                 "before#1:let mut first = true;": "let ghost tp = sql.tr();\nproof { lemma_l_exprs_empty(window.partition_by@); assert(tp + Seq::<Ev>::empty() =~= tp); }",
+                 "loop1-end": "proof { lemma_l_exprs_step(window.partition_by@, it1.index@ as int); }",
+                 "before#1:if !window.order_by.is_empty()": "let ghost t1 = sql.tr();\nproof { lemma_l_exprs_empty(window.partition_by@); assert(t1 =~= t0 + win_partition(*window)); }",
+                 "before#2:let mut first = true;": "let ghost to = sql.tr();\nproof { lemma_l_orders_empty(window.order_by@); assert(to + Seq::<Ev>::empty() =~= to); }",
+                 "loop2-end": "proof { lemma_l_orders_step(window.order_by@, it2.index@ as int); }",
+                 "before#1:if let Some(frame) = &window.frame": "let ghost t2 = sql.tr();\nproof { lemma_l_orders_empty(window.order_by@); assert(t2 =~= t1 + win_order(*window)); }",
+                 "body-end": "proof { assert(sql.tr() =~= t2 + win_frame(*window)); assert(sql.tr() =~= t0 + window_events(*window)); }"})
+    u.emit("}\n")
     # ---- upsert and RETURNING ---------------------------------------------------------------------------------------------------
     # grammar: PostgreSQL / SQLite  ON CONFLICT [ (target) [WHERE ..] ] action [WHERE ..]  - the target filter BEFORE the action, the
     # action filter AFTER it; MySQL  ON DUPLICATE KEY UPDATE ..  has neither target nor filters.  RETURNING: PostgreSQL / SQLite only.
@@ -554,6 +608,65 @@ pub open spec fn returning_events(r: Option<ReturningClause>) -> Seq<Ev> {
     u.fn(MYQ, "impl QueryBuilder for MysqlQueryBuilder", "prepare_returning", props=P, key="MysqlQueryBuilder::prepare_returning", vpath="MysqlQueryBuilderU::prepare_returning",
          rules=[r_dynw, make_r_sub("R-slice", r"_sql: &mut W", "sql: &mut W")],
          spec="ensures\n    // MySQL has no RETURNING\n    final(sql).tr() == old(sql).tr(),")
+    u.emit("}\n")
+    # ---- WITH clause: WITH [RECURSIVE] name [(cols)] AS [[NOT] MATERIALIZED] (query) [, ..] [options] ------------------------------------
+    u.spec('''
+// builder's own requirement (CommonTableExpression docs: "mandatory to set table_name and query"; the renderer unwraps them;
+// a WITH clause without any CTE is rejected by an assertion)
+pub open spec fn cte_complete(c: CommonTableExpression) -> bool { c.table_name is Some && c.query is Some }
+pub open spec fn with_complete(w: WithClause) -> bool { w.cte_expressions@.len() > 0 && forall|i: int| 0 <= i < w.cte_expressions@.len() ==> cte_complete(#[trigger] w.cte_expressions@[i]) }
+pub open spec fn materialization_events(c: CommonTableExpression) -> Seq<Ev> {
+    match c.materialized { Some(m) => seq![lit(if m { "" } else { "NOT" }), lit(" MATERIALIZED ")], None => Seq::<Ev>::empty() }
+}
+pub open spec fn cte_events_with(c: CommonTableExpression, mat: Seq<Ev>) -> Seq<Ev> {
+    seq![Ev::Iden(c.table_name->Some_0)] + (if c.cols@.len() == 0 { seq![lit(" ")] } else { seq![lit(" (")] + l_idens(c.cols@) + seq![lit(") ")] })
+        + seq![lit("AS ")] + mat + seq![lit("("), Ev::Query(*c.query->Some_0), lit(") ")]
+}
+pub open spec fn cte_events(c: CommonTableExpression) -> Seq<Ev> { cte_events_with(c, seq![Ev::Materialization(c)]) }
+''', "render::with-clause-spec", props=P)
+    u.emit("pub struct DfltC;\nimpl DfltC {\n")
+    u.spec(abstract("prepare_iden", "x: &DynIden", "Ev::Iden(*x)") + abstract("prepare_query_statement", "x: &SubQueryStatement", "Ev::Query(*x)")
+           + abstract("prepare_with_query_clause_materialization_", "x: &CommonTableExpression", "Ev::Materialization(*x)")
+           + abstract("prepare_with_clause_recursive_options", "x: &WithClause", "Ev::WithOpts(*x)")
+           + "    fn vbox_ref<T>(b: &Box<T>) -> (r: &T) ensures *r == **b { &**b }\n"
+           + "    // R-panic (trusted): a failed assert_ne! never returns\n    #[verifier::external_body]\n    fn vassert_ne(a: usize, b: usize) requires a != b { unimplemented!() }\n", "render::abstract-sub-renderers(cte)", props=P)
+    u.fn(QB, "trait QueryBuilder", "prepare_with_clause_start", props=P, key="QueryBuilder::prepare_with_clause_start", vpath="DfltC::prepare_with_clause_start", rules=[r_dynw, r_fmt],
+         spec="ensures final(sql).tr() == old(sql).tr() + (if with_clause.recursive { seq![lit(\"WITH \"), lit(\"RECURSIVE \")] } else { seq![lit(\"WITH \")] }),",
+         proofs={"body-start": "let ghost t0 = sql.tr();", "body-end": "proof { assert(sql.tr() =~= t0 + (if with_clause.recursive { seq![lit(\"WITH \"), lit(\"RECURSIVE \")] } else { seq![lit(\"WITH \")] })); }"})
+    u.fn(QB, "trait QueryBuilder", "prepare_with_query_clause_materialization", props=P, key="QueryBuilder::prepare_with_query_clause_materialization[default]", vpath="DfltC::prepare_with_query_clause_materialization",
+         rules=[r_dynw, r_fmt], spec="ensures final(sql).tr() == old(sql).tr() + materialization_events(*cte),",
+         proofs={"body-start": "let ghost t0 = sql.tr();", "body-end": "proof { assert(sql.tr() =~= t0 + materialization_events(*cte)); }"})
+    u.fn(QB, "trait QueryBuilder", "prepare_with_query_clause_common_table", props=P, key="QueryBuilder::prepare_with_query_clause_common_table", vpath="DfltC::prepare_with_query_clause_common_table",
+         rules=[r_dynw, r_fmt,
+                make_r_sub("R-opaque", r"cte\.table_name\s*\.as_ref\(\)\s*\.unwrap\(\)\s*\.prepare\(sql, self\.quote\(\)\);", "self.prepare_iden(cte.table_name.as_ref().unwrap(), sql);"),
+                make_r_sub("R-opaque", r"\bcol\.prepare\(sql, self\.quote\(\)\)", "self.prepare_iden(col, sql)"),
+                make_r_sub("R-forghost", r"for col in &cte\.cols", "for col in itc: cte.cols.iter()"),
+                make_r_sub("R-path", r"self\.prepare_with_query_clause_materialization\(cte, sql\)", "self.prepare_with_query_clause_materialization_(cte, sql)"),
+                make_r_sub("R-path", r"cte\.query\.as_ref\(\)\.unwrap\(\)\.deref\(\)", "Self::vbox_ref(cte.query.as_ref().unwrap())")],
+         spec="requires cte_complete(*cte),\nensures\n    // name [(columns in call order)] AS [materialization] (query)\n    final(sql).tr() == old(sql).tr() + cte_events(*cte),",
+         loops=["invariant itc.index@ <= cte.cols@.len(), col_first == (itc.index@ == 0), sql.tr() == tcl + l_idens(cte.cols@.subrange(0, itc.index@ as int)),"],
+         proofs={"body-start": "let ghost t0 = sql.tr();",
+                 "before#1:let mut col_first = true;": "let ghost tcl = sql.tr();\nproof { lemma_l_idens_empty(cte.cols@); assert(tcl + Seq::<Ev>::empty() =~= tcl); }",
+                 "loop1-end": "proof { lemma_l_idens_step(cte.cols@, itc.index@ as int); }",
+                 "body-end": "proof { lemma_l_idens_empty(cte.cols@); assert(sql.tr() =~= t0 + cte_events(*cte)); }"})
+    u.emit("}\n")
+    u.emit("pub struct DfltC2;\nimpl DfltC2 {\n")
+    u.spec(abstract("prepare_with_query_clause_common_table", "x: &CommonTableExpression", "Ev::Cte(*x)") + abstract("prepare_with_clause_start", "x: &WithClause", "Ev::WithStart(*x)")
+           + abstract("prepare_with_clause_recursive_options", "x: &WithClause", "Ev::WithOpts(*x)") + abstract("prepare_query_statement", "x: &SubQueryStatement", "Ev::Query(*x)")
+           + "    fn vbox_ref<T>(b: &Box<T>) -> (r: &T) ensures *r == **b { &**b }\n"
+           + "    #[verifier::external_body]\n    fn vassert_ne(a: usize, b: usize) requires a != b { unimplemented!() }\n", "render::abstract-sub-renderers(with)", props=P)
+    u.fn(QB, "trait QueryBuilder", "prepare_with_clause_common_tables", props=P, key="QueryBuilder::prepare_with_clause_common_tables", vpath="DfltC2::prepare_with_clause_common_tables",
+         rules=[r_dynw, r_fmt, make_r_sub("R-panic", r"assert_ne!\(\s*with_clause\.cte_expressions\.len\(\),\s*0,\s*\"[^\"]*\"\s*\);", "Self::vassert_ne(with_clause.cte_expressions.len(), 0);"),
+                make_r_sub("R-forghost", r"for cte in &with_clause\.cte_expressions", "for cte in itt: with_clause.cte_expressions.iter()")],
+         spec="requires with_clause.cte_expressions@.len() > 0,\nensures\n    // every common table expression, in call order, separated by `, `\n    final(sql).tr() == old(sql).tr() + l_ctes2(with_clause.cte_expressions@),",
+         loops=["invariant itt.index@ <= with_clause.cte_expressions@.len(), cte_first == (itt.index@ == 0), sql.tr() == t0 + l_ctes2(with_clause.cte_expressions@.subrange(0, itt.index@ as int)),"],
+         proofs={"body-start": "let ghost t0 = sql.tr();\nproof { lemma_l_ctes2_empty(with_clause.cte_expressions@); assert(t0 + Seq::<Ev>::empty() =~= t0); }",
+                 "loop1-end": "proof { lemma_l_ctes2_step(with_clause.cte_expressions@, itt.index@ as int); }",
+                 "body-end": "proof { lemma_l_ctes2_empty(with_clause.cte_expressions@); }"})
+    WC = "old(sql).tr().push(Ev::WithStart(*with_clause)) + l_ctes2(with_clause.cte_expressions@) + (if with_clause.recursive { seq![Ev::WithOpts(*with_clause)] } else { Seq::<Ev>::empty() })"
+    u.fn(QB, "trait QueryBuilder", "prepare_with_clause", props=P, key="QueryBuilder::prepare_with_clause", vpath="DfltC2::prepare_with_clause", rules=[r_dynw],
+         spec="requires with_clause.cte_expressions@.len() > 0,\nensures\n    // WITH [RECURSIVE], the tables, then the recursive options (only for a recursive clause)\n    final(sql).tr() == " + WC + ",",
+         proofs={"body-start": "let ghost t0 = sql.tr();", "body-end": "proof { assert(sql.tr() =~= " + WC.replace("old(sql).tr()", "t0") + "); }"})
     u.emit("}\n")
     # ---- recursive WITH options: SEARCH .. / CYCLE .. are Postgres syntax (default renderer); MySQL and SQLite must not emit them ----
     u.spec('''
